@@ -21,6 +21,9 @@ CHECKS = {
  "C15": ("exploration", "exhaustive sweep: 8 published values x all 65,536 offsets x 3 structures, boundary sets for every other time field, exhaustive small lease-date tuples and permutations; oracle math/big on raw fields",
          "The 16-bit offset axis is covered completely for every boundary published value; lease-set extremum over all tuples of 1..6 dates from a 3-value menu, all permutations of 4 dates and every extremum position among 16.",
          "IsExpired checked at +-1 day only (time-dependent)."),
+ "C16": ("model_checking", "E1 over LeaseSet2 values x key pairs x cookies under a deterministic rand.Reader; exhaustive tampering of every ciphertext byte; exhaustive product for blinding (types x secrets x instants x zones x factors) against an independent edwards25519 computation",
+         "Every byte position of the selected ciphertexts is modified (8 bit flips; thorough: all 255 values) and must be rejected with a nil value; every (destination type, secret, instant, zone) tuple is blinded and compared with A + alpha*B computed independently.",
+         "alpha derivation (HKDF) is trusted from go-i2p/crypto; AEAD/X25519 primitives trusted."),
  "C17": ("exploration", "exhaustive product of host x port x key-variant x caps menus through constructor and parser paths, against independent three-valued IP/port recognisers",
          "Full product of a 50-host and 34-port menu plus key variants and caps; every static-key/IV length 0..40.",
          "Strings outside the menus are not enumerated; Unspecified forms only bound by the consistency clauses."),
